@@ -25,6 +25,7 @@ H = "CPP/Clipper2Lib/include/clipper2/"
 
 CONTROLS = {
     "C01": [
+        ('Reset no longer re-arms the success flag', 'CPP/Clipper2Lib/src/clipper.engine.cpp', '    sel_ = nullptr;\n    succeeded_ = true;', '    sel_ = nullptr;', 'SUCCESS.re-armed'),
         ("TopX measures from the top vertex's x", 'CPP/Clipper2Lib/src/clipper.engine.cpp', 'return ae.bot.x + static_cast<int64_t>(nearbyint(ae.dx * (currentY - ae.bot.y)));', 'return ae.top.x + static_cast<int64_t>(nearbyint(ae.dx * (currentY - ae.bot.y)));', 'POLY.topx'),
         ('HI_PRECISION intersection: hitx adds where it must subtract', 'CPP/Clipper2Lib/include/clipper2/clipper.core.h', '      double hitx = ((ln1dx * ln1c) - (ln2dx * ln0c)) / det;\n      double hity = ((ln2dy * ln0c) - (ln1dy * ln1c)) / det;\n\n      ip.x = originx + (T)nearbyint(hitx);', '      double hitx = ((ln1dx * ln1c) + (ln2dx * ln0c)) / det;\n      double hity = ((ln2dy * ln0c) - (ln1dy * ln1c)) / det;\n\n      ip.x = originx + (T)nearbyint(hitx);', 'POLY.intersect'),
         ("winding counts narrowed to 8 bits", H + "clipper.engine.h", "\t\tint wind_cnt = 0;", "\t\tint8_t wind_cnt = 0;", "TYPE.wind-count"),
@@ -96,6 +97,7 @@ CONTROLS = {
         ("sum computed with the operands exchanged", H + "clipper.minkowski.h", "      if (patLen == 0 || pathLen == 0) return Paths64();\n", "      if (patLen == 0 || pathLen == 0) return Paths64();\n      if (isSum && pathLen > patLen) return Minkowski(path, pattern, true, isClosed);\n", "MINK.roles"),
     ],
     "C07": [
+        ('only truly straight joins are sent to DoMiter', 'CPP/Clipper2Lib/src/clipper.offset.cpp', '\telse if (cos_a > 0.999 && join_type_ != JoinType::Round)', '\telse if (cos_a > 0.9999999 && join_type_ != JoinType::Round)', 'THRESHOLD.bisector'),
         ('miter allowed up to the limit itself instead of its cosine', 'CPP/Clipper2Lib/src/clipper.offset.cpp', '\t\tif (cos_a > temp_lim_ - 1) DoMiter(path, j, k, cos_a);', '\t\tif (cos_a > temp_lim_) DoMiter(path, j, k, cos_a);', 'JOIN.dispatch'),
         ('unit normal points to the left of the edge', 'CPP/Clipper2Lib/src/clipper.offset.cpp', '\treturn PointD(dy, -dx);', '\treturn PointD(-dy, dx);', 'POLY.offset'),
         ('miter threshold derived once in the constructor only', 'CPP/Clipper2Lib/src/clipper.offset.cpp', '\t\ttemp_lim_ = (miter_limit_ <= 1) ?\n', '\t\tif (temp_lim_ == 0) temp_lim_ = (miter_limit_ <= 1) ?\n', 'LIMIT.rederived'),
@@ -106,6 +108,7 @@ CONTROLS = {
         ("closing vertex stripped for open end types too", O, "\tfor (Path64& p: paths_in)\n\t  StripDuplicates(p, is_joined);", "\tfor (Path64& p: paths_in)\n\t  StripDuplicates(p, true);", "GROUP.strip-closed"),
     ],
     "C08": [
+        ('from the Top region the left side is tried wherever p is', 'CPP/Clipper2Lib/src/clipper.rectclip.cpp', '      else if ((p.x < rectPath[0].x) && GetSegmentIntersection(p, p2, rectPath[0], rectPath[3], ip))', '      else if (GetSegmentIntersection(p, p2, rectPath[0], rectPath[3], ip))', 'T.nearest-crossing'),
         ('between test of the second end point only accepts ascending sides', 'CPP/Clipper2Lib/src/clipper.rectclip.cpp', '      else if (IsHorizontal(p3, p4)) return ((p2.x > p3.x) == (p2.x < p4.x));', '      else if (IsHorizontal(p3, p4)) return ((p2.x > p3.x) && (p2.x < p4.x));', 'T.touching'),
         ('touching case of the third end point stores the fourth', 'CPP/Clipper2Lib/src/clipper.rectclip.cpp', '    if (res3 == 0)\n    {\n      ip = p3;', '    if (res3 == 0)\n    {\n      ip = p4;', 'POLY.intersect'),
         ("from Left, a vertex above the rectangle and right of it is classed Top", R, "      else if (path[i].x >= rect_.right) loc = Location::Right;\n      else if (path[i].y <= rect_.top) loc = Location::Top;\n      else if (path[i].y >= rect_.bottom) loc = Location::Bottom;\n      else loc = Location::Inside;\n      break;\n\n    case Location::Top:", "      else if (path[i].y <= rect_.top) loc = Location::Top;\n      else if (path[i].x >= rect_.right) loc = Location::Right;\n      else if (path[i].y >= rect_.bottom) loc = Location::Bottom;\n      else loc = Location::Inside;\n      break;\n\n    case Location::Top:", "T.next-location"),
@@ -164,6 +167,7 @@ CONTROLS = {
          "\t\tif (!group.lowest_path_idx.has_value()) delta_ = std::abs(delta_);\n\t\tgroup_delta_ = (group.is_reversed) ? -delta_ : delta_;", "LOOP"),
     ],
     "C13": [
+        ('vertex count of AddPaths_ accumulates over the paths of a call', 'CPP/Clipper2Lib/src/clipper.engine.cpp', '    for (const Path64& path : paths)\n    {\n      //for each path create a circular double linked list of vertices\n      Vertex* v0 = v, * curr_v = v, * prev_v = nullptr;\n\n      if (path.empty())\n        continue;\n\n      v->prev = nullptr;\n      int cnt = 0;', '    int cnt = 0;\n    for (const Path64& path : paths)\n    {\n      //for each path create a circular double linked list of vertices\n      Vertex* v0 = v, * curr_v = v, * prev_v = nullptr;\n\n      if (path.empty())\n        continue;\n\n      v->prev = nullptr;', 'LOOP'),
         ('Union of a single path hands the path back', 'CPP/Clipper2Lib/include/clipper2/clipper.h', '  inline Paths64 Union(const Paths64& subjects, FillRule fillrule)\n  {\n    Paths64 result;', '  inline Paths64 Union(const Paths64& subjects, FillRule fillrule)\n  {\n    if (subjects.size() == 1) return subjects;\n    Paths64 result;', 'WRAP.no-passthrough'),
         ('GetDx divides dy by dx', 'CPP/Clipper2Lib/src/clipper.engine.cpp', '      return double(pt2.x - pt1.x) / dy;', '      return dy / double(pt2.x - pt1.x);', 'POLY.topx'),
         ("CrossProductSign's last factor measured from pt1", 'CPP/Clipper2Lib/include/clipper2/clipper.core.h', '    const auto c = pt2.y - pt1.y;\n    const auto d = pt3.x - pt2.x;\n\n#if', '    const auto c = pt2.y - pt1.y;\n    const auto d = pt3.x - pt1.x;\n\n#if', 'POLY.cross'),
@@ -209,6 +213,7 @@ CONTROLS = {
          "  ClipperOffset clip_offset( miter_limit,\n    arc_tolerance, false, reverse_solution);", "  ClipperOffset clip_offset( miter_limit,\n    arc_tolerance, reverse_solution);", "FORWARD.param"),
     ],
     "C18": [
+        ('closing edge of PointInPolygon no longer reports IsOn', 'CPP/Clipper2Lib/include/clipper2/clipper.core.h', '      else prev = curr - 1;\n      double d = CrossProduct(*prev, *curr, pt);\n      if (d == 0) return PointInPolygonResult::IsOn;\n      if ((d < 0) == is_above) val = 1 - val;', '      else prev = curr - 1;\n      if ((CrossProduct(*prev, *curr, pt) < 0) == is_above) val = 1 - val;', 'PIP.on-edge'),
         ('parallel segments detected with a tolerance', 'CPP/Clipper2Lib/include/clipper2/clipper.core.h', '    double det = dy1 * dx2 - dy2 * dx1;\n    if (det == 0.0) return false;', '    double det = dy1 * dx2 - dy2 * dx1;\n    if (std::fabs(det) < 1e-9) return false;', 'POLY.intersect'),
         ('second unrolled term of Area has the opposite orientation', 'CPP/Clipper2Lib/include/clipper2/clipper.core.h', '      a += static_cast<double>(it1->y + it2->y) * (it1->x - it2->x);', '      a += static_cast<double>(it1->y + it2->y) * (it2->x - it1->x);', 'POLY.area'),
         ('upper word adds the carry of the wrong intermediate', 'CPP/Clipper2Lib/include/clipper2/clipper.core.h', '    const uint64_t hibits = hi(a) * hi(b) + hi(x2) + hi(x3);', '    const uint64_t hibits = hi(a) * hi(b) + hi(x2) + hi(x1);', 'POLY.multiply'),
@@ -223,6 +228,7 @@ CONTROLS = {
         ("partial sum can wrap", H + "clipper.core.h", "    const uint64_t x2 = hi(a) * lo(b) + hi(x1);", "    const uint64_t x2 = hi(a) * lo(b) + x1;", "P.multiply-no-wrap"),
     ],
     "C20": [
+        ('left half of RDP examined only from two interior vertices on', 'CPP/Clipper2Lib/include/clipper2/clipper.h', '    if (idx > begin + 1) RDP(path, begin, idx, epsSqrd, flags);', '    if (idx > begin + 2) RDP(path, begin, idx, epsSqrd, flags);', 'RDP.spans'),
         ('maxima of GetBounds(Paths) start at the smallest positive value', 'CPP/Clipper2Lib/include/clipper2/clipper.core.h', '    T xmax = std::numeric_limits<T>::lowest();\n    T ymax = std::numeric_limits<T>::lowest();\n    for (const Path<T>& path : paths)', '    T xmax = (std::numeric_limits<T>::min)();\n    T ymax = (std::numeric_limits<T>::min)();\n    for (const Path<T>& path : paths)', 'BOUNDS.minmax'),
         ('RDP gets the epsilon unsquared', 'CPP/Clipper2Lib/include/clipper2/clipper.h', '    RDP(path, 0, len - 1, Sqr(epsilon), flags);', '    RDP(path, 0, len - 1, epsilon, flags);', 'EPS.degree'),
         ('Ellipse turns dy with the already updated dx', 'CPP/Clipper2Lib/include/clipper2/clipper.h', '      double x = dx * co - dy * si;\n      dy = dy * co + dx * si;\n      dx = x;', '      dx = dx * co - dy * si;\n      dy = dy * co + dx * si;', 'POLY.utilities'),
